@@ -247,6 +247,7 @@ def Run(tier):
         % (clock(), len(items)), flush=True)
 
   cls = findings.Classifier(PROP)
+  known_repro = {}
   violations = []
   per_source = collections.Counter()
   accept = collections.Counter()
@@ -265,7 +266,11 @@ def Run(tier):
     if source == 'corpus':
       item['import_root'] = 'as integration_tests/run_tests.py'
     item['signature'] = Signature(item)
-    if cls.Match(item['signature']):
+    known = cls.Match(item['signature'])
+    if known:
+      best = known_repro.get(known['id'])
+      if best is None or len(item['text']) < len(best['text']):
+        known_repro[known['id']] = item
       continue
     violations.append(item)
   for c, t in zip(cases, tcs):
@@ -300,6 +305,10 @@ def Run(tier):
     print('  %s\n    text=%r\n    diff=%s (%d cases)' % (
         key, it['text'][:120], json.dumps(it['diff'])[:300], len(its)))
   known_lines = cls.Report()
+  for fid, it in known_repro.items():
+    it = dict(it)
+    it['import_root_files'] = LIB_FILES
+    common.WriteReplay(PROP, 'known_' + fid, it)
 
   coverage = {
       'programs': len(cases) + len(corpus),
